@@ -24,7 +24,7 @@ func init() {
 		Binary: "vgen",
 		Level:  "exploration",
 		Rule: "E-enum over the whole finite domains, real functions executed: (inotify, translate) newEvent on all 2^12 combinations of the twelve inspected IN_* bits x 2^4 housekeeping bits (IN_ISDIR, IN_IGNORED, IN_UNMOUNT, IN_Q_OVERFLOW) x cookie {0,n}: result == reference table, f(a|b)==f(a)|f(b), housekeeping bits never change the operations; " +
-			"(inotify, request) all 2^9 operation subsets x {follow, no-follow} x {file, directory} through AddWith on real paths, the kernel's stored mask read back from /proc/self/fdinfo == reference (every requested operation observable, no unrelated flag; the empty set fails and leaves the set untouched); plus a behavioural pass: for each single operation a scripted set of real changes must produce only that operation and must produce it; " +
+			"(inotify, request) all 2^9 operation subsets x {follow, no-follow} x {file, directory} through AddWith on real paths, the kernel's stored mask read back from /proc/self/fdinfo == reference (every requested operation observable, no unrelated flag; the empty set fails and leaves the set untouched); plus an alias-widening case (same directory added again through a symlink with more operations: the new one must be observable) and a behavioural pass: for each single operation a scripted set of real changes must produce only that operation and must produce it; " +
 			"(kqueue) the copied backend's newEvent on all 2^11 NOTE_* combinations (Write dropped with Remove, otherwise union-homomorphic), noteAllEvents == DELETE|WRITE|ATTRIB|RENAME, the fflags actually registered per knote class in the simulator, link spelling; " +
 			"(Windows) extracted newEvent on all 2^16 low masks of the sysFS* space (Chmod never), toWindowsFlags on all 2^12 masks, toFSnotifyFlags on every action 0..1023 and PRNG values; xSupports of kqueue/Windows/FEN/inotify over all 2^9 operation sets. distinct_nontrivial = distinct native masks / op sets evaluated with a non-empty result",
 		Assumptions: []string{"reference tables (harness/gen/tmpl/gchecks/c15.go) are written from the documentation of each native API", "Windows and FEN: only the extracted pure functions run (real Win32 constant values); their event loops do not exist on Linux", "kqueue registration is observed on the simulated kqueue"},
